@@ -9,7 +9,9 @@
 -/
 import DDProofs.ParseProofs
 import DDProofs.LexProofs
+import DDProofs.ToExprProofs
 import DDProofs.Inv
+open Std
 namespace DD
 
 /-! ## obligations on the regenerated tables (`decide` over finite tables) -/
@@ -335,13 +337,65 @@ def C05_addExpr_spec_statement : Prop :=
     Inv m' ∧ m'.tbl.Mem r ∧
     ∀ an, semAst m.tbl t an = some (den m'.tbl r (asgOf m'.tbl an))
 
-/-- variable names that the lexer reads back as one NAME token -/
+/-- every variable name of the manager is a NAME token and not a reserved word
+(`dd` accepts any string as a variable name; `to_expr` texts of other names do not parse) -/
 def lexableNames (tb : Tbl) : Prop :=
-  ∀ x, tb.vars.contains x → tokenize x = [.name x]
+  ∀ (lvl : Nat) (v : String), tb.l2v[lvl]? = some v → nameOk v
 
 /-- FULL STATEMENT: `add_expr(to_expr(u)) == u` -/
 def C05_addExpr_toExpr_statement : Prop :=
   ∀ (m : Mgr) (u : Int) (s : String), Inv m → m.lastLen = none → lexableNames m.tbl → m.tbl.Mem u →
     toExpr m.tbl u = .ok s → ∃ m', addExpr s m = (.ok u, m') ∧ Inv m'
+
+/-- the remaining (semantic) half of the round trip: evaluating the tree that unfolds the
+diagram below `u` returns `u` -/
+def C05_evalAst_toExprAst_statement : Prop :=
+  ∀ (m : Mgr) (u : Int) (f : Nat) (a : Ast), Inv m → m.lastLen = none → m.tbl.Mem u →
+    toExprAstF f m.tbl u = .ok a → ∃ m', evalAst a m = (.ok u, m') ∧ Inv m'
+
+/-- PROVED PART (syntactic half): the text written by `to_expr` is the text of the syntax
+tree `a` that unfolds the diagram below `u` — `ite(var, high, low)`, the variable itself for
+`ite(var, TRUE, FALSE)`, `(~ …)` for a complemented reference; the memo table of `_to_expr`
+only shares texts — -/
+theorem C05_toExpr_text (tb : Tbl) (hn : lexableNames tb) (u : Int) (s : String)
+    (h : toExpr tb u = .ok s) :
+    ∃ f a, toExprAstF f tb u = .ok a ∧ TE a ∧ s = teStr a :=
+  toExpr_spec tb hn u s h
+
+/-- … the lexer reads that text as the tokens of `a` with parentheses around negations … -/
+theorem C05_tokenize_toExpr_text (a : Ast) (h : TE a) : tokenize (teStr a) = printG isNot a :=
+  tokenize_teStr h
+
+/-- … and `add_expr` on it is the evaluation of that tree: `add_expr(to_expr(u))`
+evaluates, bottom-up, the `ite(var, high, low)` unfolding of `u` -/
+theorem C05_addExpr_toExpr_partial (m : Mgr) (hn : lexableNames m.tbl) (u : Int) (s : String)
+    (h : toExpr m.tbl u = .ok s) :
+    ∃ f a, toExprAstF f m.tbl u = .ok a ∧ TE a ∧ parse (tokenize s) = some a ∧
+      addExpr s = tryToReorder (evalAst a) := by
+  obtain ⟨f, a, ha, hte, hp⟩ := parse_toExpr m.tbl hn u s h
+  refine ⟨f, a, ha, hte, hp, ?_⟩
+  unfold addExpr
+  congr 1
+  simp only [parse] at hp
+  unfold addExprToks
+  split at hp
+  · rename_i t' ht'
+    simp only [Option.some.injEq] at hp
+    subst hp
+    rw [ht']
+  · simp at hp
+
+/-- non-vacuity: a table with one variable and one node; a tree of the image of `to_expr` -/
+def exTbl : Tbl :=
+  { succ := ({} : TreeMap Nat Nd).insert 2 ⟨0, -1, 1⟩,
+    vars := ({} : TreeMap String Nat).insert "a" 0,
+    l2v := ({} : TreeMap Nat String).insert 0 "a" }
+example : (match toExprAstF 3 exTbl (-2) with | .ok a => a == .not (.var "a") | _ => false) = true := by
+  decide
+def exTe : Ast := .not (.ite (.var "a") (.bool true) (.not (.var "b'")))
+example : TE exTe :=
+  .neg _ (.ite _ _ _ (nameOk_of_check (by decide)) .tt (.neg _ (.var _ (nameOk_of_check (by decide)))))
+example : teStr exTe = "(~ ite(a, TRUE, (~ b')))" := by decide
+example : parse (tokenize "(~ ite(a, TRUE, (~ b')))") = some exTe := by decide
 
 end DD
